@@ -82,6 +82,7 @@ type FunDecl struct {
 	Args []*Sort
 	Ret  *Sort
 	Def  string // optional full SMT definition text (define-fun ...) ; if empty, declare-fun
+	Lits []string // string literals occurring in Def
 }
 
 var TB = &TermBank{tab: map[string]*Term{}, funs: map[string]*FunDecl{}, fresh: map[string]int{}}
@@ -634,6 +635,17 @@ func Select(arr, idx *Term) *Term {
 	return mk("select", el, arr, idx)
 }
 
+// At reads element idx of a slice view (row array, offset). It is an
+// uninterpreted function with the defining axiom at(A,o,i) = A[o+i], so that
+// quantifier patterns over element reads contain no arithmetic.
+func At(row, off, idx *Term) *Term {
+	_, el, ok := row.Sort.arrayParts()
+	if !ok {
+		panic("At on non-array " + row.Sort.Name)
+	}
+	return mk("at."+el.Name, el, row, off, idx)
+}
+
 func distinctLits(a, b *Term) bool {
 	if a.Op == "int" && b.Op == "int" {
 		return a.Name != b.Name
@@ -1003,6 +1015,11 @@ func Script(asserts []*Term, prelude string, extraDecls func(used map[string]boo
 		}
 	}
 	sort.Slice(vars, func(i, j int) bool { return vars[i].id < vars[j].id })
+	for f := range usedFuns {
+		for _, l := range TB.funs[f].Lits {
+			usedStr[l] = true
+		}
+	}
 	var sb strings.Builder
 	sb.WriteString(prelude)
 	// string literals
@@ -1023,7 +1040,7 @@ func Script(asserts []*Term, prelude string, extraDecls func(used map[string]boo
 	}
 	for _, s := range lits {
 		fmt.Fprintf(&sb, "(assert (= (str_len %s) %d))\n", strLitSym(s), len(s))
-		if len(s) <= 12 {
+		if len(s) <= 128 {
 			for i := 0; i < len(s); i++ {
 				fmt.Fprintf(&sb, "(assert (= (str_at %s %d) %d))\n", strLitSym(s), i, s[i])
 			}
